@@ -410,6 +410,12 @@ K_MISC = _nomt_family("c16_misc", ["c16_pagediff_bytes_roundtrip", "c16_pagediff
                        "nomt::beatree::ops::overflow::{encode_cell, decode_cell}"],
                       unwind=40, classes="default", timeout_s=900, mem_gb=6)
 
+K_FREELIST = _nomt_family("c16_freelist", ["c16_freelist_n0", "c16_freelist_n1", "c16_freelist_n3"],
+                          "free-list page: decode(encode(prev, pns)) == (prev, pns); documented layout le32(prev) ++ le16(count) ++ le32(pn)*; "
+                          "capacity constant fits the page", "n <= 3 page numbers (symbolic, below a symbolic file bound), symbolic prev, "
+                          "arbitrary prior page content", ["nomt::beatree::allocator::free_list::{encode_free_list_page, decode_free_list_page}"],
+                          unwind=12, classes="default", timeout_s=900, mem_gb=6)
+
 _KANI_EXPL = ("Bounded model checking (Kani 0.68 / CBMC 6.11 / cadical) of the real nomt-core code compiled from /repo; the "
               "oracle is the specification's trie written as data (shape.rs) and hashed through the same symbolic random oracle.")
 
@@ -461,12 +467,11 @@ PROPERTIES = {
                            "symbolically for every worker count 1..64 and every child.",
             "outside": ["every schedule", "warm-up, extend-range protocol, eviction, io_workers, hasher choice", "cross-configuration "
                         "equality of roots"]},
-    "C16": {"level": "model_checking", "obligations": K_META + K_LEAF_LAYOUT + K_PAGEID + K_MISC + [M_META_BYTE],
+    "C16": {"level": "model_checking", "obligations": K_META + K_LEAF_LAYOUT + K_PAGEID + K_MISC + K_FREELIST + [M_META_BYTE],
             "explanation": "Format kernels: each encoder's output decodes, by the documented layout alone, to what was encoded, for "
                            "arbitrary garbage in unwritten bytes (Kani/CBMC over the real encoders; z3 over MIR for tag bytes).",
             "outside": ["whole-image invariants: exactly one leaf per key across leaves, no page both free and used, reachability of "
-                        "every stored merkle page, equality with the reference trie", "branch page, free-list page, WAL blob, PageDiff "
-                        "codecs (not built in this revision)"]},
+                        "every stored merkle page, equality with the reference trie", "branch page and WAL blob codecs (not built)"]},
     "C18": {
         "level": "model_checking",
         "obligations": _c18(),
